@@ -29,7 +29,7 @@ SCHEDULE_MEASURE = "distinct (period pair, cycle script) hashes"
 COMPONENTS = {
     "real": ["pce500/scheduler.py TimerScheduler.advance/reset", "sc62015/core/src/timer.rs TimerContext::"
              "{new,reset,tick_timers,snapshot_info,apply_snapshot_info}", "sc62015/core/src/memory.rs (ISR byte)",
-             "machine level: PCE500Emulator.step/_tick_timers/_simulate_wait, CoreRuntime::step"],
+             "machine level: PCE500Emulator.step/_tick_timers/_simulate_wait/reset, CoreRuntime::step"],
     "stub": ["the clock (cycle sequence) is the simulator's", "perfetto compiled out"],
 }
 ASSUMPTIONS = ["phase after a gap is implementation-defined and judged only by Python==Rust; cadence is judged "
